@@ -14,22 +14,38 @@ MANIFEST = {
     "text": "Lean 4 proof, for every route table and destination, that the model of RouteTable.find_best_route (the loop as written, "
             "including ipaddress' netmask/hostmask parsing and its raise) returns the longest-prefix entry, lowest metric on ties, "
             "earliest entry on full ties, the default route exactly when nothing matches, None exactly when nothing matches and no "
-            "default exists. For the executable forwarding model (hosts, switches, routers, ARP, ICMP, a UDP service exchange; one "
-            "shared mutable frame per flood) and every topology, state and nesting depth: software is handed a unicast frame only on "
-            "a node owning its destination IP (unconditional, by invariant induction over the whole interpreter); ARP-cache "
-            "soundness is preserved by every processing step under a decidable configuration check; every receive and every routing "
-            "hop lowers the TTL by one and drops at TTL < 1, so the accepted receptions + hops of one frame object, over all flood "
-            "branches, are at most its TTL; ARP look-ups re-attempt at most twice; hosts send on-link destinations directly and "
+            "default exists; look-ups are a function of the table as it is now (histories with any look-ups in between give the same "
+            "answers; a new or replaced default route and a new route take effect at the next look-up). For the executable forwarding "
+            "model (hosts, switches, routers, firewalls, ARP, ICMP, a UDP service exchange; one shared mutable frame per flood) and "
+            "every topology, state and nesting depth: software is handed a unicast frame only on a node owning its destination IP "
+            "(unconditional, by invariant induction over the whole interpreter); ARP-cache soundness is preserved by every processing "
+            "step under a decidable configuration check (GoodCfg); every receive and every routing hop lowers the TTL by one and drops "
+            "at TTL < 1. HANDLING ANY PACKET ALWAYS TERMINATES, as a theorem with an a-priori bound: from any state whose "
+            "configuration passes GoodCfg, any sequence of pings / service requests / interface and power toggles / cache clears run "
+            "with any nesting budget >= 1323 (a constant depending only on the initial TTL 64) never runs out of budget and computes "
+            "exactly what it computes with budget 1323 (ranking: frame classes ARP-reply < ARP-request-for-a-next-hop < ARP-request < "
+            "reply < request, 4 levels per TTL unit, look-up flag rank <= 3; 20-field mutual induction), and unconditionally a run "
+            "that finishes is identical under any larger budget (fuel monotonicity). Hosts send on-link destinations directly and "
             "everything else to the gateway's MAC; routers forward to the next hop of the route find_best_route returns, never "
             "forward broadcasts, and drop frames their first verdict denies before anything else (firewalls: the arrival port's list, "
-            "no ARP exemption, then the list chosen by the destination); a ping and a service request/reply between two hosts joined "
-            "by warm paths of any number of switches, routers and firewalls in any order, every verdict permitting, succeed "
-            "(liveness, partial: warm caches). Tie: constants, comparison operators, acceptance tests and "
-            "call order regenerated from the source (Gen/Forward.lean) + rigs R-route and R-net (whole event streams, results and "
-            "final tables of generated topologies diffed against the model, plus the property's own oracle on the implementation).",
-    "note": "C08-specific: whole-network termination is proved per frame (TTL) and per look-up (flags); that the nesting of ARP "
-            "exchanges ends, and that permitted exchanges succeed (liveness), are checked by the rig on the implementation, not "
-            "proved. Metrics are Int in the model (float inf/nan not modelled). Rule lists are abstracted to one verdict per payload "
+            "no ARP exemption, then the list chosen by the destination; a broadcast on the DMZ port is dropped before the look-ups). "
+            "Liveness: a ping and a service request/reply between two hosts joined by WARM paths of any number of switches, routers "
+            "and firewalls in any order, every verdict permitting, succeed; with COLD caches a ping between two hosts on one switched "
+            "LAN (other ports dead or other hosts, switch table arbitrary) and a ping host - router - host over direct cables (all "
+            "three caches empty, the router's nested ARP exchange inside process_frame included) succeed, every ARP cascade part of "
+            "the statement. Tie: constants, comparison "
+            "operators, acceptance tests, call order and what the ranking argument rests on (DMZ broadcast guard, routers resolve "
+            "without ARP, replies start nothing, ARP pairs genuine, find_best_route pure) regenerated from the source "
+            "(Gen/Forward.lean) + rigs R-route and R-net (whole event streams, results and final tables of generated topologies "
+            "diffed against the model, plus the property's own oracle on the implementation) + R-app (real DNS / database exchanges "
+            "across generated routers, implementation-side oracles only).",
+    "note": "C08-specific: the termination theorem needs GoodCfg (unique MACs, next hops are addresses only routers carry); "
+            "whether it is necessary is open (no counterexample known on the repaired code; the rig's misconfigured families "
+            "terminate in model and implementation). Python's own recursion limit is outside the model. Liveness is PARTIAL: "
+            "warm caches for arbitrary paths, cold caches only for one switched LAN and for host - router - host over direct "
+            "cables; cold caches over switched LANs behind routers, several routers, firewalls, and the service exchange with "
+            "cold caches are checked by oracle (d) on the implementation, not proved. "
+            "Metrics are Int in the model (float inf/nan not modelled). Rule lists are abstracted to one verdict per payload "
             "class (router: default ACL plus one permit flag; firewall: six lists x three classes); an air space frequency is "
             "modelled for two access points only; link / air space capacity is outside the forwarding model.",
     "technique": "Lean 4 theorems over executable models of route selection and frame forwarding; models tied by regenerated tables and "
@@ -37,7 +53,9 @@ MANIFEST = {
     "design_ref": "5/C08",
 }
 MODULES = ["PrimaiteModel.Props.C08", "PrimaiteModel.Props.C08Forward", "PrimaiteModel.Lemmas.ForwardInv",
-           "PrimaiteModel.Props.C08Addressee", "PrimaiteModel.Props.C08Liveness"]
+           "PrimaiteModel.Props.C08Addressee", "PrimaiteModel.Props.C08Liveness", "PrimaiteModel.Props.C08FuelMono",
+           "PrimaiteModel.Props.C08Termination", "PrimaiteModel.Props.C08RouteOps", "PrimaiteModel.Props.C08Cold",
+           "PrimaiteModel.Props.C08ColdRouter"]
 EXE = "drv_c08"
 
 
@@ -145,8 +163,18 @@ def _run_net(ctx: Ctx):
         model = [rnet.canon_model_answer(out[p]) for p in pos]
         ctx.cov["traces_validated_against_impl"] += 1
         notes = case.get("notes", {})
-        ctx.count("net-hypotheses-of-arp-sound-theorem:" + out[pos[0] - 1])
-        for key in ("via_host", "gw_is_host", "gw_off_subnet"):
+        good = out[pos[0] - 2] if lines_all[pos[0] - 1].startswith("needfuel") else out[pos[0] - 1]
+        ctx.count("net-hypotheses-of-arp-sound-theorem:" + good)
+        # instances of C08_operation_terminates: from a checked configuration every probed ping finishes within fuelBound
+        lo = pos[0] - 2
+        hi = pos[-1]
+        for q in range(lo, hi):
+            if lines_all[q].startswith("needfuel"):
+                ctx.count(f"net-nesting-budget-needed(goodcfg={good}):<={out[q]}")
+                if good == "1" and out[q] == "none":
+                    ctx.oblige(f"fuel bound theorem instance on {name}", "correspondence", False,
+                               f"{lines_all[q]} needs more than fuelBound although the configuration passes goodCfgB")
+        for key in ("via_host", "gw_is_host", "gw_off_subnet", "dmz_cross", "recursive_nh"):
             if notes.get(key):
                 ctx.count("net-misconfig:" + key)
         if notes.get("dual_homed") is not None:
@@ -182,7 +210,7 @@ def _run_net(ctx: Ctx):
                 ctx.count("net-model-out-of-fuel")
         ctx.case(["net", case], nontrivial)
         bad = rnet.oracle(case, records)
-        if not bad and out[pos[0] - 1] == "1" and not (impl and impl[0] == "OOF"):
+        if not bad and good == "1" and not (impl and impl[0] == "OOF"):
             bad = rnet.arp_sound_oracle(case, impl)
             ctx.count("net-arp-sound-checked-on-impl")
         if bad:
@@ -214,6 +242,40 @@ def _run_net(ctx: Ctx):
     ctx.oblige("rig:R-net agrees on every trace", "correspondence", agree == len(cases), f"{len(cases) - agree} of {len(cases)} traces disagree")
 
 
+# ---------------------------------------------------------------------------------------------- R-app
+def _run_apps(ctx: Ctx):
+    """Real application exchanges (DNS look-up, database connect + query) across the generated routers: implementation only, the
+    property's own oracles (termination, TTL, addressee, permitted exchanges succeed).  Search / validation, not proof: the
+    model's service exchange is one UDP request / reply; these go through the same hand-over code with other ports and payloads."""
+    rng = ctx.rng.fork("app")
+    want = ctx.scale(40, 300)
+    done = tries = 0
+    while done < want and tries < want * 12:
+        tries += 1
+        case = rnet.gen_case(rng)
+        kinds = {nd["kind"] for nd in case["nodes"]}
+        hosts = [nd for nd in case["nodes"] if nd["kind"] == "host"]
+        notes = case.get("notes", {})
+        if ("firewall" in kinds or "wrouter" in kinds or not case.get("consistent") or len(hosts) < 2
+                or notes.get("dual_homed") is not None or notes.get("via_host") or notes.get("routing") == "broken"):
+            continue
+        case = dict(case, ops=[])
+        records = rnet.run_apps(case)
+        done += 1
+        ctx.cov["traces_validated_against_impl"] += 1
+        ctx.count(f"app-routers:{notes.get('routers')}")
+        routed = False
+        for r in records:
+            ctx.count(f"app-exchange:{r['op']['op'][4:]}:{r['res']}")
+            ctx.count("app-events", len(r["raw"]))
+            routed = routed or any(e[0] == "hop" for e in r["raw"])
+        ctx.case(["app", case], routed)
+        bad = rnet.oracle(case, records)
+        if bad:
+            ctx.violation({"kind": "net-oracle", "defect": bad["kind"], "family": "app"}, bad["what"], {"rig": "app", "case": case})
+    ctx.oblige("rig:R-app ran its application exchanges", "correspondence", done > 0, f"{done} cases")
+
+
 def replay(rec: dict) -> bool:
     with lean_lock():
         from harness.lib.core import lake_build
@@ -223,6 +285,8 @@ def replay(rec: dict) -> bool:
     if r.get("rig") == "route":
         ok, impl, *_ = _route_diff(case)
         return ok and rroute.oracle(case, impl) is None
+    if r.get("rig") == "app":
+        return rnet.oracle(case, rnet.run_apps(case)) is None
     ok, impl, model, i, records = _net_diff(case)
     return ok and rnet.oracle(case, records) is None
 
@@ -239,3 +303,4 @@ def run(ctx: Ctx):
                        "canonical JSON of the case")
     _run_route(ctx)
     _run_net(ctx)
+    _run_apps(ctx)
